@@ -133,3 +133,46 @@ def second_run(fmt, d0, d1):
 ob("C12", "K3.second_run_noop", {"fmt": R(0, 2), "d0": PR, "d1": PR}, T=300,
    funcs=["cdd.shared.ast_utils.cmp_ast", "cdd.class_.emit.class_", "cdd.function.emit.function", "cdd.argparse_function.emit.argparse_function"],
    bound="truth with an int and a str parameter whose default is ANY 2 printable characters; target kinds class/function/argparse")(second_run)
+
+
+# K4: sync hands ONE truth interface to every emitter in turn (argparse, class, function): no emitter may change it ---------------------
+def shared_truth(kind, i, truth_order):
+    from copy import deepcopy
+
+    import cdd.argparse_function.emit
+    import cdd.class_.emit
+    import cdd.function.emit
+    from cdd.shared.ast_utils import NoneStr, cmp_ast
+
+    dv = {0: None, 1: NoneStr, 2: i, 3: 0.0, 4: "s", 5: False}
+    tv = {0: "Optional[float]", 1: "Optional[float]", 2: "int", 3: "float", 4: "str", 5: "Optional[bool]"}
+    d, t = dv[0], tv[0]
+    for k in range(1, 6):
+        if kind == k:
+            d, t = dv[k], tv[k]
+    gold = {"name": "T", "doc": "Doc.", "type": "static", "params": OrderedDict((
+        ("timeout", {"typ": t, "doc": "the timeout", "default": d}), ("b", {"typ": "str", "doc": "a str", "default": "x"}))),
+        "returns": None}
+    emitters = (
+        lambda ir: cdd.argparse_function.emit.argparse_function(ir, function_name="set_cli_args", word_wrap=False),
+        lambda ir: cdd.class_.emit.class_(ir, class_name="T", word_wrap=False),
+        lambda ir: cdd.function.emit.function(ir, function_name="T", function_type="static", word_wrap=False),
+    )
+    order = ((0, 1, 2), (0, 2, 1), (1, 0, 2), (2, 1, 0))[0]
+    for j, cand in enumerate(((0, 2, 1), (1, 0, 2), (2, 1, 0))):
+        if truth_order == j + 1:
+            order = cand
+    shared = deepcopy(gold)
+    for idx in order:
+        fresh = emitters[idx](deepcopy(gold))
+        got = emitters[idx](shared)  # the same object is passed on, as cdd.shared.conformance.ground_truth does
+        if not cmp_ast(fresh, got):
+            return "emitter #%d produced a different target from the shared truth than from a fresh copy (an earlier emitter changed the truth)" % idx
+    return ""
+
+
+ob("C12", "K4.shared_truth", {"kind": R(0, 5), "i": R(-1, 1), "truth_order": R(0, 3)}, T=400,
+   funcs=["cdd.shared.conformance.ground_truth", "cdd.argparse_function.emit.argparse_function", "cdd.class_.emit.class_", "cdd.function.emit.function",
+          "cdd.shared.ast_utils.param2argparse_param"],
+   bound="truth with a parameter whose default is None / NoneStr / int -1..1 / 0.0 / str / False, handed as ONE object to the three emitters in 4 orders "
+         "(argparse first, as sync does): each target equals the one emitted from a fresh copy")(shared_truth)
